@@ -58,6 +58,7 @@ public:
     AnyCellmlElementPtr convertToWeak(const AnyCellmlElementPtr &item);
     AnyCellmlElementPtr convertToShared(const AnyCellmlElementPtr &item);
 
+    bool importSourceListed(const ItemList &idList, const std::string &id, const ImportSourcePtr &importSource);
     void listComponentIdsAndItems(const ComponentPtr &component, ItemList &idList);
     ItemList listIdsAndItems(const ModelPtr &model);
 
@@ -159,6 +160,26 @@ inline bool equals(const std::weak_ptr<T> &t, const std::weak_ptr<U> &u)
     return !t.owner_before(u) && !u.owner_before(t);
 }
 
+/**
+ * @brief Test whether the given import source is already listed under the given identifier.
+ *
+ * An import source can be shared by several imported components and units; it is
+ * one item (one import element) and must only be listed once.
+ */
+bool Annotator::AnnotatorImpl::importSourceListed(const ItemList &idList, const std::string &id, const ImportSourcePtr &importSource)
+{
+    auto range = idList.equal_range(id);
+    for (auto it = range.first; it != range.second; ++it) {
+        if (it->second->type() == CellmlElementType::IMPORT) {
+            auto listed = std::any_cast<ImportSourceWeakPtr>(it->second->mPimpl->mItem).lock();
+            if (listed == importSource) {
+                return true;
+            }
+        }
+    }
+    return false;
+}
+
 void Annotator::AnnotatorImpl::listComponentIdsAndItems(const ComponentPtr &component, ItemList &idList)
 {
     std::string id = component->id();
@@ -171,7 +192,7 @@ void Annotator::AnnotatorImpl::listComponentIdsAndItems(const ComponentPtr &comp
     ImportSourcePtr importSource = component->importSource();
     if (importSource != nullptr) {
         id = importSource->id();
-        if (!id.empty()) {
+        if (!id.empty() && !importSourceListed(idList, id, importSource)) {
             auto entry = AnyCellmlElement::AnyCellmlElementImpl::create();
             entry->mPimpl->setImportSource(importSource);
             idList.insert(std::make_pair(id, convertToWeak(entry)));
@@ -321,7 +342,7 @@ ItemList Annotator::AnnotatorImpl::listIdsAndItems(const ModelPtr &model)
         if (units->isImport()) {
             ImportSourcePtr importSource = units->importSource();
             id = importSource->id();
-            if (!id.empty()) {
+            if (!id.empty() && !importSourceListed(idList, id, importSource)) {
                 auto entry = AnyCellmlElement::AnyCellmlElementImpl::create();
                 entry->mPimpl->setImportSource(importSource);
                 idList.insert(std::make_pair(id, convertToWeak(entry)));
